@@ -279,18 +279,38 @@ example : NoDigitlessForm [.str [49, 50], .str [51, 46, 53], .str [97, 98], .int
   simp at hs
   rcases hs with rfl | rfl | rfl <;> intro d hd <;> simp [scanDec, takeDigits, isDigit] at hd <;> subst hd <;> simp
 
-/-- C04.3b the group-by bucket (`stats avg(x) by g`): for every list of records the bucket counts ALL records and its
-Sum cell is the mathematical sum of the int / float values, so the average it answers is that sum divided by the
-number of RECORDS of the group (blockresult.go:823-826 `sumRawVal / float64(bucket.count)`), and count(x) is the
-number of records (blockresult.go:757). -/
-theorem rb_avg_divides_by_record_count (vs : List Val) (h : absIntSum (nums noParse vs) < 9223372036854775808)
+/-- C04.3b `rb_avg_eq_sum_div_numeric_count`, the group-by bucket (`stats avg(x) by g`), code as FIXED by patch c04-7:
+for every list of records the bucket's Sum cell is the mathematical sum of the int / float values and the average it
+answers is that sum divided by the number of records that HAVE such a value — events lacking x and text values do not
+enter the denominator.  count(x) is still the number of records of the bucket (blockresult.go:757, known finding). -/
+theorem rb_avg_eq_sum_div_numeric_count (vs : List Val) (h : absIntSum (nums noParse vs) < 9223372036854775808)
     (hne : nums noParse vs ≠ []) :
     ∃ b, foldRB exact vs = some b ∧
-      (resultRB exact b).avg = .flt (ratSum (nums noParse vs) / (vs.length : Rat)) ∧
+      (resultRB exact b).avg = .flt (ratSum (nums noParse vs) / ((nums noParse vs).length : Rat)) ∧
       (resultRB exact b).count = vs.length := by
-  rcases foldRB_sum vs h with ⟨hnil, _⟩ | ⟨b, hb, hn, hvne, hs⟩
+  rcases foldRB_sum vs h with ⟨hnil, _⟩ | ⟨b, hb, hn, hvne, hs, hc⟩
   · subst hnil; exact absurd rfl hne
   · refine ⟨b, hb, ?_, by simp [resultRB, hn]⟩
+    have he : (nums noParse vs).isEmpty = false := by
+      cases hx : nums noParse vs with
+      | nil => exact absurd hx hne
+      | cons a r => rfl
+    have hlen : (nums noParse vs).length ≠ 0 := by
+      intro hl; exact hne (List.length_eq_zero_iff.mp hl)
+    have hs' : b.sum = (sumSpec (nums noParse vs)).toCV := by rw [hs]; simp [rbSum, he]
+    have hr := sumSpec_toRat (nums noParse vs)
+    simp only [resultRB, hs', hc]
+    cases hsp : sumSpec (nums noParse vs) <;> simp [hsp, Num.toCV, CV.float?, Num.toRat, hlen] at hr ⊢ <;> rw [hr]
+
+/-- the code AS FOUND (`resultRBOld`): the average was the sum divided by the number of RECORDS of the group
+(blockresult.go `sumRawVal / float64(bucket.count)`), exact characterisation … -/
+theorem rb_avg_old_divides_by_record_count (vs : List Val) (h : absIntSum (nums noParse vs) < 9223372036854775808)
+    (hne : nums noParse vs ≠ []) :
+    ∃ b, foldRB exact vs = some b ∧
+      (resultRBOld exact b).avg = .flt (ratSum (nums noParse vs) / (vs.length : Rat)) := by
+  rcases foldRB_sum vs h with ⟨hnil, _⟩ | ⟨b, hb, hn, hvne, hs, _⟩
+  · subst hnil; exact absurd rfl hne
+  · refine ⟨b, hb, ?_⟩
     have he : (nums noParse vs).isEmpty = false := by
       cases hx : nums noParse vs with
       | nil => exact absurd hx hne
@@ -298,40 +318,32 @@ theorem rb_avg_divides_by_record_count (vs : List Val) (h : absIntSum (nums noPa
     have hlen : vs.length ≠ 0 := by intro hl; exact hvne (List.length_eq_zero_iff.mp hl)
     have hs' : b.sum = (sumSpec (nums noParse vs)).toCV := by rw [hs]; simp [rbSum, he]
     have hr := sumSpec_toRat (nums noParse vs)
-    simp only [resultRB, hs', hn]
+    simp only [resultRBOld, hs', hn]
     cases hsp : sumSpec (nums noParse vs) <;> simp [hsp, Num.toCV, CV.float?, Num.toRat, hlen] at hr ⊢ <;> rw [hr]
 
-/-- the full statement "avg = sum / number of events having x" is FALSE for the group-by bucket: over the two events
-`x = 5` and `x absent` it answers 5/2 and count(x) = 2 -/
-theorem rb_avg_counterexample :
-    ∃ b, foldRB exact [.int 5, .absent] = some b ∧ (resultRB exact b).avg = .flt (5 / 2) ∧ (resultRB exact b).count = 2 ∧
+/-- … so over the two events `x = 5` and `x absent` it answered 5/2, the fixed code answers 5; count(x) is 2 for both
+(recorded as stats/groupby-avg-count/record-count; the avg part repaired by patch c04-7, the count part still known) -/
+theorem rb_avg_old_counterexample :
+    ∃ b, foldRB exact [.int 5, .absent] = some b ∧ (resultRBOld exact b).avg = .flt (5 / 2) ∧
+      (resultRB exact b).avg = .flt 5 ∧ (resultRB exact b).count = 2 ∧
       (5 : Rat) / 2 ≠ total (numbers [.int 5, .absent]) / ((numbers [.int 5, .absent]).length : Rat) := by
-  obtain ⟨b, hb, ha, hc⟩ := rb_avg_divides_by_record_count [.int 5, .absent] (by decide) (by decide)
+  obtain ⟨b, hb, ha⟩ := rb_avg_old_divides_by_record_count [.int 5, .absent] (by decide) (by decide)
+  obtain ⟨b', hb', ha', hc'⟩ := rb_avg_eq_sum_div_numeric_count [.int 5, .absent] (by decide) (by decide)
+  have hbb : b' = b := by rw [hb] at hb'; exact (Option.some.inj hb').symm
+  subst hbb
   have e1 : nums noParse [.int 5, .absent] = [.int 5] := rfl
   have e2 : numbers [.int 5, .absent] = [(5 : Rat)] := rfl
-  refine ⟨b, hb, ?_, by simpa using hc, ?_⟩
+  refine ⟨b', hb, ?_, ?_, by simpa using hc', ?_⟩
   · rw [ha, e1]; simp [ratSum, Num.toRat, Rat.add_zero]
+  · rw [ha', e1]; simp [ratSum, Num.toRat, Rat.add_zero]; grind
   · rw [e2]; simp [total, Rat.add_zero]; grind
 
-/-- partial theorem, dense fields: when every record of the group has a numeric (int / float) x the bucket's average IS
-the mathematical average -/
-theorem rb_avg_partial (vs : List Val) (h : absIntSum (nums noParse vs) < 9223372036854775808) (hne : vs ≠ [])
-    (hdense : (nums noParse vs).length = vs.length) :
-    ∃ b, foldRB exact vs = some b ∧
-      (resultRB exact b).avg = .flt (ratSum (nums noParse vs) / ((nums noParse vs).length : Rat)) := by
-  have hn : nums noParse vs ≠ [] := by
-    intro hx; rw [hx] at hdense; exact hne (List.length_eq_zero_iff.mp hdense.symm)
-  obtain ⟨b, hb, ha, _⟩ := rb_avg_divides_by_record_count vs h hn
-  exact ⟨b, hb, by rw [ha, hdense]⟩
-
-example : (nums noParse [.int 1, .flt 2]).length = [Val.int 1, Val.flt 2].length := by decide
-
 /-- merge of group-by buckets (`MergeRunningBuckets`, what joins the per-segment / per-batch buckets of one group): the
-record count and the Sum cell of the merged bucket are those of the unsplit list, for every split of every list — so
-sum, count and the (record-count) average of a group do not depend on the segmentation -/
+record count, the Sum cell and its numeric count of the merged bucket are those of the unsplit list, for every split of every list — so
+the numeric count, hence sum, count and average of a group do not depend on the segmentation -/
 theorem rb_merge_hom_count_sum (xs ys : List Val) (h : absIntSum (nums noParse (xs ++ ys)) < 9223372036854775808) :
-    (mergeRB exact (foldRB exact xs) (foldRB exact ys)).map (fun b => (b.n, b.sum)) =
-      (foldRB exact (xs ++ ys)).map (fun b => (b.n, b.sum)) :=
+    (mergeRB exact (foldRB exact xs) (foldRB exact ys)).map (fun b => (b.n, b.sum, b.nc)) =
+      (foldRB exact (xs ++ ys)).map (fun b => (b.n, b.sum, b.nc)) :=
   mergeRB_n_sum xs ys h
 
 /-- the code AS FOUND (`foldRBOld` / `mergeRBOld`): the group-by bucket's min / max over a measure field of mixed type
